@@ -49,7 +49,7 @@ def gen_config(rng, tier, flavor="db"):
         cfg["n_alleles"][0] = 2
     if rng.random() < (0.015 if flavor != "trace" else 0.0):
         # rare large shapes: pools / high ploidy with many known haplotypes (index arithmetic, cache keys)
-        cfg["ploidy"] = rng.choice([8, 10, 12, 32])
+        cfg["ploidy"] = rng.choice([3, 5, 7, 8, 10, 12, 32])
         if cfg["ploidy"] == 32:
             cfg["n_alleles"] = [2, 2, 2]
             cfg["n_haps"] = rng.choice([4, 5, 6, 8])
@@ -197,9 +197,16 @@ class CallSim:
         np = self.np
         m = self.m
         st = 0 if cfg["step_type"] == "Gibbs" else 1
+        entry = cfg["entry"]
+        if entry == "sampler":
+            import inspect
+            params = inspect.signature(m["cmcmc"].mcmc_sampler).parameters
+            if not {"genotype_alleles", "haplotypes", "reads", "read_counts", "inbreeding", "frequencies", "n_steps", "cache", "step_type"} <= set(params):
+                entry = "fit"  # the direct entry point changed its signature: drive the sampler through the public class instead
+                self.ctx.counters.inc("sampler_entry_unavailable")
         with Seams() as seams:
             self.install(seams)
-            if cfg["entry"] == "fit":
+            if entry == "fit":
                 model = m["cclasses"].CallingMCMC(
                     ploidy=cfg["ploidy"], haplotypes=self.haps, frequencies=self.freqs, inbreeding=self.F,
                     steps=cfg["steps"], chains=cfg["chains"], random_seed=11, step_type=cfg["step_type"])
@@ -228,7 +235,7 @@ class CallSim:
                     for i, st in enumerate(h):
                         if not np.array_equal(G[c, i], st):
                             self.viol("trace_state_mismatch", "fit() trace[%d,%d] is not the state the sampler held after that step" % (c, i), trace=G[c, i], expected=st)
-            elif cfg["entry"] == "sampler":
+            elif entry == "sampler":
                 traces = []
                 for c in range(cfg["chains"]):
                     gt, lt = m["cmcmc"].mcmc_sampler(
@@ -278,7 +285,7 @@ class CallSim:
     def w_sampler(self, *args, **kwargs):
         a = bind(self.real["sampler"], args, kwargs)
         self.cur_chain = {"states": [], "llks": []}
-        self.ctx.log.add("sampler_enter", a["genotype_alleles"], int(a["n_steps"]), bool(a["cache"]), int(a["step_type"]))
+        self.ctx.log.add("sampler_enter", a.get("genotype_alleles"), int(a["n_steps"]), int(a.get("step_type", 0)))
         gt, lt = self.real["sampler"](**a)
         ch = self.cur_chain
         self.cur_chain = None
